@@ -43,12 +43,57 @@ class NoSymbol(Exception):
     pass
 
 
+class OddStr(str):
+    """a str subclass whose str() differs from its value (like a str-mixin Enum member).  The documented type of an atom
+    name is str and the library stores str(name): the atom's name is what str() shows"""
+
+    def __new__(cls, shown):
+        o = str.__new__(cls, 'zz_' + shown)
+        o.shown = shown
+        return o
+
+    def __str__(self):
+        return self.shown
+
+    __repr__ = __str__
+
+
 def build(tree, Lang, style='obj'):
+    if style == 'rewrap' and tree[0] not in ('ap', 'true', 'false'):
+        # the formula is first built around a stand-in and the operands of one inner node are then replaced IN PLACE with
+        # wrap_subformulas (documented: "Replaces subformulas of the current object"), by operands of another height
+        path = []
+        node = tree
+        while node[0] not in ('ap', 'true', 'false') and any(x[0] not in ('ap', 'true', 'false') for x in node[1:]):
+            i = next(j for j, x in enumerate(node[1:]) if x[0] not in ('ap', 'true', 'false'))
+            path.append(i)
+            node = node[1 + i]
+        if path and node[0] not in ('ap', 'true', 'false'):
+            def standin(t, p):
+                if not p:
+                    return (t[0],) + tuple(('not', ('not', ('ap', 'w'))) for _ in t[1:])
+                return t[:1 + p[0]] + (standin(t[1 + p[0]], p[1:]),) + t[2 + p[0]:]
+            try:
+                obj = build(standin(tree, path), Lang, 'obj')
+                inner = obj
+                for i in path:
+                    inner = inner.subformula(i)
+                inner.wrap_subformulas([build(x, Lang, 'obj') for x in node[1:]], Lang.Formula)
+                return obj
+            except NoSymbol:
+                raise
+            except Exception:
+                pass            # stand-in not constructible in this language (kind restrictions): plain construction
+        return build(tree, Lang, 'obj')
+    return _build(tree, Lang, style)
+
+
+def _build(tree, Lang, style='obj'):
     """bottom-up construction with Lang's own classes.  style 'raw': atoms/booleans are passed as
     plain str/bool operands where the constructors allow it"""
     t = tree[0]
     if t == 'ap':
-        return Lang.AtomicProposition(tree[1])
+        return Lang.AtomicProposition(OddStr(tree[1]) if style == 'strsub' else tree[1])
     if t in ('true', 'false'):
         return Lang.Bool(t == 'true')
     name = UNARY.get(t) or BINARY.get(t) or NARY.get(t)
@@ -58,14 +103,14 @@ def build(tree, Lang, style='obj'):
         # construction through the overloaded Python operators ~ & | ; a leaf left operand is passed raw, so that the
         # reflected operators (__rand__/__ror__) are exercised too
         if t == 'not':
-            return ~build(tree[1], Lang, style)
-        lhs, rhs = tree[1], build(tree[2], Lang, style)
+            return ~_build(tree[1], Lang, style)
+        lhs, rhs = tree[1], _build(tree[2], Lang, style)
         if lhs[0] == 'ap':
             lhs = lhs[1]
         elif lhs[0] in ('true', 'false'):
             lhs = lhs[0] == 'true'
         else:
-            lhs = build(lhs, Lang, style)
+            lhs = _build(lhs, Lang, style)
         return (lhs & rhs) if t == 'and' else (lhs | rhs)
     args = []
     for x in tree[1:]:
@@ -74,7 +119,7 @@ def build(tree, Lang, style='obj'):
         elif style == 'raw' and x[0] in ('true', 'false'):
             args.append(x[0] == 'true')
         else:
-            args.append(build(x, Lang, style))
+            args.append(_build(x, Lang, style))
     return getattr(Lang, name)(*args)
 
 
@@ -227,7 +272,9 @@ def _ids(obj):
         if o.__class__.__name__ in ('Bool', 'AtomicProposition'):
             continue                # immutable leaves may legitimately be shared
         out.add(id(o))
-        out.add(id(o._subformula))
+        for v in vars(o).values():          # mutable containers held by the node (e.g. its operand list); immutable ones may be shared
+            if isinstance(v, (list, dict, set)):
+                out.add(id(v))
         stack.extend(o.subformulas())
     return out
 
